@@ -292,6 +292,11 @@ def check(run):
                     exp = -1 if a > b else (1 if a < b else 0)
                     if c[i][j] != exp:
                         run.violation(desc, "integer-key comparator disagrees with numeric order on %d,%d" % (i, j))
+    # ---- the cached 115-byte prefix of a node's first key, as the store maintains it: node-level comparisons through the
+    #      prefix must route every look-up as the full key would (directed scripts around the prefix length: head key
+    #      deleted / re-inserted, short and long keys mixed; oracle = reference map + structure walk with the prefix/flag test)
+    import kvcommon
+    kvcommon.drive(run, "map", 0, 0, theorem_pid="C19", boundary=(30 if tier == "quick" else 1200), slack=False)
     return run.finish(level=LEVEL,
                       rule="boundary integers (+-2^k+-1, +-10^k+-1) x buffer sizes, random byte strings, key triples per key mode "
                            "(shared prefixes around 115 bytes, compound suffixes, numeric strings with signs/fractions/zeros/NUL); "
